@@ -25,7 +25,7 @@ PROP = {
                   "C04_explicit_uncommitted_merge_refuted, classifier f0401_class. "
                   "Tie: translation validation of every merge the harness provokes (1-6 sources, committed and uncommitted, with/without deletes, many/few "
                   "store blocks, sorted index asc/desc with shuffled mappings): model(source dumps) = output dump and spec(source dumps) = output dump inside Coq; "
-                  "schedules with the merge thread gated at its k-th storage operation while delete+commit / rollback / delete_all / adds / GC / a second merge run: "
+                  "schedules with the merge thread gated at its k-th storage operation while delete+commit / rollback / delete_all / adds / GC / a second merge run, a double gate (segment_updater parked inside the commit's atomic_write(meta.json) until the merge thread has reached end_merge), rollback followed by a delete as first operation, and POLICY merges of >= 2 uncommitted segments with deletes and re-adds between them (not in class F0401): "
                   "published ids = state machine = sequential replay.",
     "level_note": "Trusted: Coq kernel + vm_compute; pin.py; the harness' dump of a SegmentReader through the public API and its recovery of the "
                   "shuffled mapping from the unique id column. Not modelled: the codecs behind the dumps (C07/C08/C09/C15), TermMerger's heap (represented by "
